@@ -397,6 +397,32 @@ theorem steps_shift_partial (F : FloatOps) (bp k L n : Nat) (s t : State) (h : S
     (r = .next ∧ r' = .next ∧ ShB bp k L s' t') ∨ (r = .ret ∧ s'.err ≠ none) :=
   UgoVerif.Proofs.Shift.steps_shift_partial F n s t h hc r s' r' t' h1 h2
 
+/-- **return_shift.**  The RETURN of the callee from `ShB`-related states (`bp ≥ 1`, `k ≥ 1`; the fetched
+    opcode is RETURN): if both `step`s end normally, the child's loop returns (`.ret`, `vm.err` unset,
+    `frameIndex = 1`) and the parent continues in its caller's frame (`frameIndex = k`, `sp = bp`); heap,
+    globals and module cache are equal; and the slot the child's `Run` reads its result from,
+    `child.stack[sp-1]`, holds the same value as the slot where the parent's caller finds the call's
+    value, `parent.stack[sp-1]` (= the callee's slot `bp-1`). -/
+theorem return_shift (F : FloatOps) (bp k L : Nat) (hk : 1 ≤ k) (hbp : 1 ≤ bp) (s t : State) (h : ShB bp k L s t)
+    (hop : ∀ op s1, exec fetchOp s = (.ok op, s1) → op = OpReturn)
+    (r r' : Ctl) (s' t' : State) (h1 : exec (step F) s = (.ok r, s')) (h2 : exec (step F) t = (.ok r', t')) :
+    r = .ret ∧ r' = .next ∧ s'.heap = t'.heap ∧ s'.globals = t'.globals ∧ s'.modules = t'.modules ∧
+    s'.err = none ∧ t'.err = none ∧ s'.frameIndex = 1 ∧ t'.frameIndex = k ∧ t'.sp = bp ∧ 1 ≤ s'.sp ∧
+    s'.stack[(s'.sp - 1).toNat]! = t'.stack[(t'.sp - 1).toNat]! :=
+  UgoVerif.Proofs.Shift.return_shift F hk hbp s t ⟨h, hop⟩ r s' r' t' h1 h2
+
+/-- **result_value_deref** (the epilogue).  `Run` returns `stack[sp-1]` unless it is an `*ObjectPtr`, which
+    it dereferences (vm.go:166-170) — the in-script caller gets the slot value as it is.  So after
+    `return_shift` the two results are EQUAL whenever the returned value is not a raw `*ObjectPtr`, and
+    otherwise the Go side gets the pointee.  The compiler emits GETLOCALPTR / GETFREEPTR only as operands
+    of CLOSURE (compiler_nodes.go:899-901), so no compiled function returns a raw pointer; with
+    hand-made bytecode `GETLOCALPTR 0; RETURN 1` the real VM gives `typeName(f(5)) = "objectPtr"` but
+    `typeName(Invoke(f, 5)) = "int"` (observed on the real code; outside the property's quantifier). -/
+theorem result_value_deref (s : State) (hsp : 1 ≤ s.sp ∧ s.sp ≤ (stackSize : Int)) :
+    ((∀ a, s.stack[(s.sp - 1).toNat]! ≠ .box a) → exec resultValue s = (.ok (s.stack[(s.sp - 1).toNat]!), s)) ∧
+    (∀ a w, s.stack[(s.sp - 1).toNat]! = .box a → s.heap[a]? = some (.box w) → exec resultValue s = (.ok w, s)) :=
+  ⟨resultValue_of_slot s hsp, fun a w hv hw => resultValue_of_box s hsp a w hv hw⟩
+
 /-- what `ShB` says about the observable state: same heap, globals and module cache -/
 theorem shB_observables (bp k L : Nat) (s t : State) (h : ShB bp k L s t) :
     s.heap = t.heap ∧ s.globals = t.globals ∧ s.modules = t.modules ∧ s.ip = t.ip ∧ t.sp = s.sp + bp := by
